@@ -89,6 +89,8 @@ def as_iter(I, fr, op):
     v = fr.operand(op)
     if is_iter(v):
         return v
+    if isinstance(v, Opt) and v.tag in ('some', 'none'):
+        return SliceIt([v.payload] if v.tag == 'some' else [], 0)
     s = seq_of(I, fr, op)
     if isinstance(s, Agg):
         return SliceIt(s.items, 0)
@@ -197,6 +199,9 @@ def std_transfer(I, fr, t, c, pth):
             a = fr.operand(args[0])
             if isinstance(a, SliceIt):
                 fr.storev(dest, SliceIt(list(reversed(a.items[a.pos:])), 0))
+                return True
+            if isinstance(a, RangeIt) and a.end - a.cur <= 65536:
+                fr.storev(dest, SliceIt([Int(i) for i in range(a.end - 1, a.cur - 1, -1)], 0))
                 return True
             return False
         if name == 'for_each' and len(args) == 2:
@@ -381,6 +386,16 @@ def std_transfer(I, fr, t, c, pth):
         elif ty.startswith('std::ops::RangeFrom<') and isinstance(rng, Agg) and len(rng.items) == 1 and as_int(rng.items[0]) is not None:
             lo, hi = as_int(rng.items[0]), None
         else:
+            k = as_int(rng)
+            if k is not None and (ty in ('usize',) or not ty):
+                rp = ref_of(fr, args[0])
+                if rp is not None:
+                    fr.storev(dest, Ref(rp[0], list(rp[1]) + [['ci', k, 0, False]]))
+                    return True
+                s = seq_of(I, fr, args[0])
+                if isinstance(s, Agg) and k < len(s.items) and name == 'index':
+                    fr.storev(dest, s.items[k])
+                    return True
             return False
         if name == 'index':
             s = seq_of(I, fr, args[0])
